@@ -1,14 +1,26 @@
 #!/bin/bash
 # Re-runs, for every kept seeded change, the checks its meta.json lists (quick tier) and prints one line per pair.
-cd /verif
-for d in seeded/*/; do
+# Works on scratch copies (a worktree of /repo and a copy of /verif under /tmp/scratch) so that /repo, the evidence files
+# and the replays of /verif are not touched; both copies are removed at the end.
+#   tools/seeded_matrix.sh [name-filter]
+set -u
+S=/tmp/scratch/matrix.$$
+mkdir -p $S
+git -C /repo worktree add --detach $S/repo HEAD -q || exit 2
+rsync -a --exclude .git --exclude .build --exclude 'replays/*.json' /verif/ $S/verif/
+export VERIF_DIR=$S/verif VERIF_REPO=$S/repo VERIF_KNOWN=$S/verif/known_findings.json
+for d in /verif/seeded/*${1:-}*/; do
   name=$(basename $d)
-  git -C /repo apply --check /verif/$d/patch.diff 2>/dev/null || { echo "$name PATCH-DOES-NOT-APPLY"; continue; }
+  git -C $S/repo apply --check $d/patch.diff 2>/dev/null || { echo "$name PATCH-DOES-NOT-APPLY"; continue; }
+  git -C $S/repo apply $d/patch.diff
   for p in $(jq -r '.what_i_ran.result.checks | keys[]' $d/meta.json); do
     was=$(jq -r ".what_i_ran.result.checks[\"$p\"]" $d/meta.json)
-    out=$(timeout 900 tools/mutant.sh $d/patch.diff bin/check $p --tier quick 2>&1); rc=$?
+    out=$(cd $S/verif && timeout 900 bin/check $p --tier quick 2>&1); rc=$?
     cls=$(echo "$out" | grep -m1 "class=" | sed 's/.*class=\([^ ]*\).*/\1/')
     case $rc in 0) r=missed;; 1) r="caught ($cls)";; *) r="trouble($rc)";; esac
     echo "$name $p now: $r | recorded: $was"
   done
+  git -C $S/repo checkout -- . ; git -C $S/repo clean -fdq
 done
+git -C /repo worktree remove --force $S/repo
+rm -rf $S
